@@ -11,10 +11,11 @@ structure OIx (x : FObj) (ip : Prop) (snap : Option (List Nat)) (o : Nat) : Prop
   once : x.nd + x.calls = (if x.destroyed then 1 else 0)
   pendTbl : x.pending = true → x.tbl = false
   pendClean : x.pending = true → 1 ≤ x.holds → x.dyA = 0 ∧ x.dyB = 0 ∧ x.destroyed = false ∧ ip
-  tblA : x.tbl = true → x.dyA = 0
-  tblOpen : x.tbl = true → snap = none → ip ∧ x.dyB = 0 ∧ x.destroyed = false
-  tblSnap : x.tbl = true → ∀ l, snap = some l → o ∈ l ∨ 1 ≤ x.dyB ∨ x.destroyed = true
-  cov : x.destroyed = true ∨ 1 ≤ x.dyA ∨ 1 ≤ x.dyB ∨ 1 ≤ x.holds ∨ x.tbl = true
+  dead : (1 ≤ x.dyA ∨ 1 ≤ x.dyB ∨ x.destroyed = true) → x.holds = 0 ∧ x.tbl = false
+  one : x.dyA + x.dyB + (if x.destroyed then 1 else 0) ≤ 1
+  alive : x.holds = 0 → x.tbl = false → (1 ≤ x.dyA ∨ 1 ≤ x.dyB ∨ x.destroyed = true)
+  tblOpen : x.tbl = true → snap = none → ip
+  tblSnap : x.tbl = true → ∀ l, snap = some l → o ∈ l
 
 def OI (s : FS) (o : Nat) : Prop := OIx (s.obj o) (s.inpool o) s.snap o
 
@@ -27,7 +28,7 @@ theorem OIx.congr_ip {x : FObj} {ip ip' : Prop} {snap : Option (List Nat)} {o : 
     (hiff : ip ↔ ip') (h : OIx x ip snap o) : OIx x ip' snap o :=
   ⟨h.refEq, h.once, h.pendTbl,
    fun a b => ⟨(h.pendClean a b).1, (h.pendClean a b).2.1, (h.pendClean a b).2.2.1, hiff.mp (h.pendClean a b).2.2.2⟩,
-   h.tblA, fun a b => ⟨hiff.mp (h.tblOpen a b).1, (h.tblOpen a b).2⟩, h.tblSnap, h.cov⟩
+   h.dead, h.one, h.alive, fun a b => hiff.mp (h.tblOpen a b), h.tblSnap⟩
 
 theorem inv_init : Inv FS.init :=
   ⟨fun h => absurd rfl h, fun _ _ h => (by cases h), fun o h => (by cases h)⟩
@@ -61,9 +62,9 @@ theorem inv_setO (s : FS) (o : Nat) (v : FObj) (hi : Inv s) (hnum : v.num = (s.o
 /-- rebuild the object invariant for a changed record from the invariant of the old one -/
 macro "oix" h0:ident x:term : tactic => `(tactic| (
   have r1 := ($h0).refEq; have r2 := ($h0).once; have r3 := ($h0).pendTbl; have r4 := ($h0).pendClean
-  have r5 := ($h0).tblA; have r6 := ($h0).tblOpen; have r7 := ($h0).tblSnap; have r8 := ($h0).cov
+  have r5 := ($h0).dead; have r6 := ($h0).one; have r7 := ($h0).alive; have r8 := ($h0).tblOpen; have r9 := ($h0).tblSnap
   clear $h0
-  refine ⟨?_, ?_, ?_, ?_, ?_, ?_, ?_, ?_⟩ <;> dsimp only <;>
+  refine ⟨?_, ?_, ?_, ?_, ?_, ?_, ?_, ?_, ?_⟩ <;> dsimp only <;>
     (generalize $x = y at *
      obtain ⟨num, ref, pending, destroyed, nd, calls, holds, tbl, dyA, dyB⟩ := y
      dsimp only at *
@@ -127,42 +128,39 @@ theorem inv_inc (s s' : FS) (o : Nat) (hi : Inv s) (h : s.step (.inc o) = some s
     oix h0 (s.obj o)
   · cases h
 
-theorem inv_dec (s s' : FS) (o : Nat) (t : Bool) (hi : Inv s) (h : s.step (.dec o t) = some s') : Inv s' := by
-  cases t
-  · simp only [FS.step, Bool.false_eq_true, if_false] at h
+theorem inv_release (s s' : FS) (o : Nat) (hi : Inv s) (h : s.step (.release o) = some s') : Inv s' := by
+  simp only [FS.step] at h
+  split at h
+  · rename_i ho
+    have h0 := hi.objs o ho
+    unfold OI at h0
     split at h
-    · rename_i hc
-      obtain ⟨ho, hpre⟩ := hc
-      have h0 := hi.objs o ho
-      unfold OI at h0
+    · rename_i ht
       cases h
-      split
-      · rename_i hle
-        refine inv_setO s o _ hi (by rfl) ?_
-        intro _
-        oix h0 (s.obj o)
-      · rename_i hle
-        refine inv_setO s o _ hi (by rfl) ?_
-        intro _
-        oix h0 (s.obj o)
-    · cases h
-  · simp only [FS.step, if_true] at h
-    split at h
-    · rename_i hc
-      obtain ⟨ho, hpre⟩ := hc
-      have h0 := hi.objs o ho
-      unfold OI at h0
-      cases h
-      split
-      · rename_i hle
-        refine inv_setO s o _ hi (by rfl) ?_
-        intro _
-        oix h0 (s.obj o)
-      · rename_i hle
-        refine inv_setO s o _ hi (by rfl) ?_
-        intro _
-        oix h0 (s.obj o)
-    · cases h
+      refine inv_setO s o _ hi (by rfl) ?_
+      intro _
+      oix h0 (s.obj o)
+    · cases h; exact hi
+  · cases h
+
+theorem inv_dec (s s' : FS) (o : Nat) (hi : Inv s) (h : s.step (.dec o) = some s') : Inv s' := by
+  simp only [FS.step] at h
+  split at h
+  · rename_i hc
+    obtain ⟨ho, hpre⟩ := hc
+    have h0 := hi.objs o ho
+    unfold OI at h0
+    cases h
+    split
+    · rename_i hle
+      refine inv_setO s o _ hi (by rfl) ?_
+      intro _
+      oix h0 (s.obj o)
+    · rename_i hle
+      refine inv_setO s o _ hi (by rfl) ?_
+      intro _
+      oix h0 (s.obj o)
+  · cases h
 
 theorem inv_dstr (s s' : FS) (o : Nat) (hi : Inv s) (h : s.step (.dstr o) = some s') : Inv s' := by
   simp only [FS.step] at h
@@ -229,7 +227,7 @@ theorem inv_new (s s' : FS) (k : Nat) (hi : Inv s) (h : s.step (.new k) = some s
         rw [updO_same]
         dsimp only
         rw [updP_same]
-        refine ⟨by simp, by simp, by simp, by simp, by simp, by simp, by simp, by simp⟩
+        refine ⟨by simp, by simp, by simp, by simp, by simp, by simp, by simp, by simp, by simp⟩
       · have ho' : o < s.n := by omega
         rw [updO_other _ _ _ _ he]
         have h0 := hi.objs o ho'
@@ -253,8 +251,8 @@ theorem inv_snapshot (s s' : FS) (l : List Nat) (hi : Inv s) (h : s.step (.snaps
     intro o ho
     have h0 := hi.objs o ho
     unfold OI at h0 ⊢
-    exact ⟨h0.refEq, h0.once, h0.pendTbl, h0.pendClean, h0.tblA, fun _ hh => (by cases hh),
-      fun ht l' hl => (by cases hl; exact Or.inl (hcompl o ho (h0.tblOpen ht hsn).1)), h0.cov⟩
+    exact ⟨h0.refEq, h0.once, h0.pendTbl, h0.pendClean, h0.dead, h0.one, h0.alive, fun _ hh => (by cases hh),
+      fun ht l' hl => (by cases hl; exact hcompl o ho (h0.tblOpen ht hsn))⟩
   · cases h
 
 theorem inv_visit (s s' : FS) (hi : Inv s) (h : s.step .visit = some s') : Inv s' := by
@@ -263,22 +261,8 @@ theorem inv_visit (s s' : FS) (hi : Inv s) (h : s.step .visit = some s') : Inv s
   · rename_i o rest hs
     have hcl : s.closed = true := hi.snapClosed (by rw [hs]; intro hh; cases hh)
     split at h
-    · rename_i hpend
-      cases h
-      refine ⟨fun _ => hcl, hi.poolOk, ?_⟩
-      intro o' ho'
-      have h0 := hi.objs o' ho'
-      unfold OI at h0 ⊢
-      refine ⟨h0.refEq, h0.once, h0.pendTbl, h0.pendClean, h0.tblA, fun _ hh => (by cases hh), ?_, h0.cov⟩
-      intro ht l' hl
-      cases hl
-      rcases h0.tblSnap ht _ hs with hm | hm
-      · simp only [List.mem_cons] at hm
-        rcases hm with rfl | hm
-        · have := h0.pendTbl hpend; rw [this] at ht; cases ht
-        · exact Or.inl hm
-      · exact Or.inr hm
-    · rename_i hpend
+    · rename_i hc
+      obtain ⟨hnp, htb⟩ := hc
       cases h
       refine ⟨fun _ => hcl, ?_, ?_⟩
       · intro k o' hp
@@ -295,18 +279,39 @@ theorem inv_visit (s s' : FS) (hi : Inv s) (h : s.step .visit = some s') : Inv s
         by_cases he : o' = o
         · subst he
           rw [updO_same]
-          exact ⟨h0.refEq, h0.once, h0.pendTbl, fun hp => absurd hp hpend, h0.tblA, fun _ hh => (by cases hh),
-            fun _ l' hl => Or.inr (Or.inl (Nat.le_add_left 1 _)), Or.inr (Or.inr (Or.inl (Nat.le_add_left 1 _)))⟩
+          have h1 : OIx { (s.obj o') with tbl := false, holds := (s.obj o').holds + 1 } (s.inpool o') (some rest) o' := by
+            have hsn : s.snap = some (o' :: rest) := hs
+            oix h0 (s.obj o')
+          exact h1
         · rw [updO_other _ _ _ _ he]
-          refine ⟨h0.refEq, h0.once, h0.pendTbl, h0.pendClean, h0.tblA, fun _ hh => (by cases hh), ?_, h0.cov⟩
+          refine ⟨h0.refEq, h0.once, h0.pendTbl, h0.pendClean, h0.dead, h0.one, h0.alive, fun _ hh => (by cases hh), ?_⟩
           intro ht l' hl
           cases hl
-          rcases h0.tblSnap ht _ hs with hm | hm
-          · simp only [List.mem_cons] at hm
-            rcases hm with hm | hm
-            · exact absurd hm he
-            · exact Or.inl hm
-          · exact Or.inr hm
+          have hm := h0.tblSnap ht _ hs
+          simp only [List.mem_cons] at hm
+          rcases hm with hm | hm
+          · exact absurd hm he
+          · exact hm
+    · rename_i hc
+      cases h
+      refine ⟨fun _ => hcl, hi.poolOk, ?_⟩
+      intro o' ho'
+      have h0 := hi.objs o' ho'
+      unfold OI at h0 ⊢
+      refine ⟨h0.refEq, h0.once, h0.pendTbl, h0.pendClean, h0.dead, h0.one, h0.alive, fun _ hh => (by cases hh), ?_⟩
+      intro ht l' hl
+      cases hl
+      have hm := h0.tblSnap ht _ hs
+      simp only [List.mem_cons] at hm
+      rcases hm with rfl | hm
+      · -- the fid popped was kept: then it was not pending and the first branch was taken
+        exfalso
+        apply hc
+        refine ⟨?_, ht⟩
+        cases hp : (s.obj o').pending with
+        | false => rfl
+        | true => have := h0.pendTbl hp; rw [this] at ht; cases ht
+      · exact hm
   · cases h
 
 theorem inv_unpool (s s' : FS) (o : Nat) (hi : Inv s) (h : s.step (.unpool o) = some s') : Inv s' := by
@@ -366,7 +371,8 @@ theorem inv_step (s s' : FS) (e : FEv) (hi : Inv s) (h : s.step e = some s') : I
   | get o => exact inv_get s s' o hi h
   | retain o => exact inv_retain s s' o hi h
   | inc o => exact inv_inc s s' o hi h
-  | dec o t => exact inv_dec s s' o t hi h
+  | release o => exact inv_release s s' o hi h
+  | dec o => exact inv_dec s s' o hi h
   | unpool o => exact inv_unpool s s' o hi h
   | dstr o => exact inv_dstr s s' o hi h
   | call o => exact inv_call s s' o hi h
